@@ -30,6 +30,9 @@ def binding_programs():
         [C("=", X, C("f", Y)), C("=", Y, Z), C("=", Z, C("g", W)), C("=", W, X if False else A("k"))],
         [C("=", C("p", X, Y), C("p", C("q", Y), A("e")))],
         [C("=", X, C("g", Y)), C("=", Y, Z)],                      # stays non-ground
+        # a list cell whose tail is not a list: a compound with variables bound afterwards, another cell ending in one
+        [C("=", X, lst([A("k")], Y)), C("=", Y, C("range", Z, W)), C("=", Z, A("one")), C("=", W, A("nine"))],
+        [C("=", X, lst([A("k"), Y], Z)), C("=", Z, C("t", Y, W)), C("=", Y, I(2)), C("=", W, lst([Y]))],
     ]
     progs = []
     for es in eqs_sets:
@@ -105,7 +108,8 @@ def run(tier, seed):
     for s_ in SG["chain"]:
         s_["py"] = True
     chk.machine_family("long-variable-chains", SG["chain"], opts=dict(OPTS, budget_extra=20000000, must_complete=True), features=features, max_steps=30000)
-    chk.machine_family("deep-answers-by-hand-and-bounded", deep_answer_scenarios(), opts=dict(OPTS, budget_extra=20000000, must_complete=True), features=features, max_steps=30000)
+    chk.machine_family("deep-answers-by-hand-and-bounded", deep_answer_scenarios(), features=features, max_steps=30000,
+                       opts_list=[dict(OPTS, budget_extra=20000000, must_complete=True), dict(OPTS, budget_extra=20000000, must_complete=True, reuse_vars=True)])
     chk.machine_family("binding-orders", scenarios(), opts=OPTS, features=features)
     chk.machine_family("raw-goal-arguments", raw_arg_scenarios(), opts=OPTS, features=features)
     n = 1500 if tier == "quick" else 15000
